@@ -1174,7 +1174,9 @@ func (r *redisRoles) batchWithoutExpiry(at ssa.Instruction, cell ssa.Value) bool
 			}
 		}
 	}
-	return false
+	// the same universal fact carried by control flow: behind the exhaustion edge of a scan that leaves at the first
+	// expiring record (v_kvs_u.go)
+	return r.exhaustedNoExpiryScanU(at, from)
 }
 
 // redisNoSeparateTTL: a record's value and its time-to-live are written by ONE command (SET/SETNX with the TTL). A TTL
